@@ -458,14 +458,14 @@ static std::string exact_geoms(const Ctx50& c, const OptSet& s, const std::vecto
     if (s.opt.flags[mjVIS_TRANSPARENT] && category == mjCAT_DYNAMIC) rgba[3] *= m->vis.map.alpha;
     if (rgba[3] == 0) continue;       // invisible geoms are not part of the scene
     if (k >= scene.size()) {
-      snprintf(msg, sizeof(msg), "call %d: model geom %d (%s) is missing from the scene (scene has %zu geoms)", call, i,
+      snprintf(msg, sizeof(msg), "a visible model geom is missing|call %d: model geom %d (%s) is missing from the scene (scene has %zu geoms)", call, i,
                mj_id2name(m, mjOBJ_GEOM, i) ? mj_id2name(m, mjOBJ_GEOM, i) : "?", scene.size());
       return msg;
     }
     const mjvGeom& g = scene[k];
 #define EXPECT(cond, what)                                                                                             \
   if (!(cond)) {                                                                                                       \
-    snprintf(msg, sizeof(msg), "call %d: scene geom %zu for model geom %d (%s): %s", call, k, i,                        \
+    snprintf(msg, sizeof(msg), "%s|call %d: scene geom %zu for model geom %d (%s): %s", what, call, k, i,               \
              mj_id2name(m, mjOBJ_GEOM, i) ? mj_id2name(m, mjOBJ_GEOM, i) : "?", what);                                 \
     return msg;                                                                                                        \
   }
@@ -531,14 +531,14 @@ static std::string exact_geoms(const Ctx50& c, const OptSet& s, const std::vecto
   }
   for (size_t j = k; j < scene.size(); j++) {
     if (scene[j].objtype != mjOBJ_ACTUATOR) {
-      snprintf(msg, sizeof(msg), "call %d: scene geom %zu (objtype %d objid %d type %d) is not a model geom of an enabled "
-               "group", call, j, scene[j].objtype, scene[j].objid, scene[j].type);
+      snprintf(msg, sizeof(msg), "extra geom|call %d: scene geom %zu (objtype %d objid %d type %d) is not a model geom of an "
+               "enabled group", call, j, scene[j].objtype, scene[j].objid, scene[j].type);
       return msg;
     }
   }
   if (scene.size() != k + extra) {
-    snprintf(msg, sizeof(msg), "call %d: scene has %zu geoms, expected %zu plugin decor + %zu model geoms + %zu slider-crank "
-             "connectors", call, scene.size(), nplug, k - nplug, extra);
+    snprintf(msg, sizeof(msg), "geom count|call %d: scene has %zu geoms, expected %zu plugin decor + %zu model geoms + %zu "
+             "slider-crank connectors", call, scene.size(), nplug, k - nplug, extra);
     return msg;
   }
   return "";
@@ -585,8 +585,8 @@ static void run_point(long point, VgxOut& out, void* user) {
         for (int call = 0; call < 2; call++) {
           std::string e = exact_geoms(c, s, sw->amp.g[call], call + 1);
           if (!e.empty()) {
-            std::string key = "only-geoms scene differs from the model geoms: " + e.substr(e.rfind(": ") + 2);
-            out.violation(point, key.c_str(), "[%s] %s", nm, e.c_str());
+            std::string key = "only-geoms scene differs from the model geoms: " + e.substr(0, e.find('|'));
+            out.violation(point, key.c_str(), "[%s] %s", nm, e.substr(e.find('|') + 1).c_str());
           }
         }
       }
